@@ -140,6 +140,27 @@ def gen_separator_history(r, cid):
         ops += ['r%d' % r.below(3), 's']
     return head(cid) + ' ' + ' '.join(ops + ['t'])
 
+def gen_merge_modelled(r, cid):
+    """two interleaved key sets (so MergeTo takes the generic or the linear path, both modelled), merged once, then
+    single-container traffic on both sides; also merges into / from an empty container (the swap shortcut)"""
+    mc, st, bc, lin, multi, _, _ = CONFIGS[cid]
+    kind = r.below(6)
+    base = 20000
+    a = [base + 1, base + 1000]; b = [base + 2, base + 999]
+    na = r.choice([0, 1, 3, 8, 3 * mc + 2, 40]); nb = r.choice([0, 1, 3, 8, 3 * mc + 2, 40, 200 if mc <= 8 else 600])
+    span = r.choice([30, 1000]) if multi else 1000
+    a += [base + 3 + r.below(span) for _ in range(na)]; b += [base + 3 + r.below(span) for _ in range(nb)]
+    if kind == 0: a = []
+    if kind == 1: b = []
+    ops = ['i%d' % k for k in a] + ['bi%d' % k for k in b]
+    r.shuffle(ops)
+    ops += ['s', 'bs', r.choice(['u', 'v', 'bu', 'bv']), 't', 'bt', 's', 'bs']
+    for _ in range(r.below(12)):
+        k = base + r.below(1100)
+        ops.append(r.choice(['i%d' % k, 'bi%d' % k, 'r%d' % r.below(60), 'br%d' % r.below(60), 'q%d' % k, 'bq%d' % k, 'w']))
+    ops += ['t', 'bt', 's', 'bs']
+    return head(cid) + ' ' + ' '.join(ops)
+
 def gen_cases(ctx, scale, modelled_only):
     r = ctx.rng
     cases = []
@@ -151,6 +172,9 @@ def gen_cases(ctx, scale, modelled_only):
         for _ in range(n):
             nops = r.choice([20, 40, 80, 160]) if mc <= 8 else r.choice([60, 120])
             cases.append(gen_history(r, cid, nops, modelled_only))
+        if modelled_only:
+            for _ in range((5 if mc <= 8 else 2) * scale):
+                cases.append(gen_merge_modelled(r, cid))
         if not modelled_only:
             for _ in range(15 * scale):
                 cases.append(gen_merge_history(r, cid))
